@@ -285,6 +285,9 @@ func referenceLine(l []byte, bh *Header) error {
 		}
 	}
 
+	if !nok || !lok {
+		return errBadHeader
+	}
 	if dup {
 		rf.id = dupID
 		if er := bh.refs[dupID]; equalRefs(er, rf) {
@@ -298,9 +301,6 @@ func referenceLine(l []byte, bh *Header) error {
 		bh.refs[dupID] = rf
 		rf.owner = bh
 		return nil
-	}
-	if !nok || !lok {
-		return errBadHeader
 	}
 	id := int32(len(bh.refs))
 	rf.owner = bh
